@@ -481,6 +481,82 @@ pub fn run(cfg: &Cfg, rep: &mut Report) {
             }
         }
     });
+    // ---- the text of a value does not depend on what the formatter already holds (a header, earlier data, an earlier
+    //      unit) nor on the kind of formatter
+    run_cases(cfg, "behind-other-output", cfg.n(10, 200_000, 8_000_000), rep, |rng, ctx| {
+        use crate::mon::dev::{val_fmt, val_text};
+        bump(ctx, 1);
+        let v = crate::gen::scen::gen_val(rng);
+        let alone = match val_text(&v) {
+            Ok(t) => t,
+            Err(_) => return,
+        };
+        let prefix: &[u8] = *rng.pick(&[&b"HDR "[..], b"1,", b"1;", b"\"x\",", b"\n", b"#", b"A:B "]);
+        ctx.nontrivial(mix(hash_bytes(&alone), hash_bytes(prefix)));
+        let mut want = prefix.to_vec();
+        want.extend_from_slice(&alone);
+        let mut grow: Vec<u8> = prefix.to_vec();
+        let r1 = val_fmt(&v, &mut grow);
+        let kind = format!("{:?}", v);
+        let kind = kind.split('(').next().unwrap_or("?").to_string();
+        ctx.count(&format!("behind-other-output.{}", kind));
+        if r1.is_err() || grow != want {
+            ctx.violation(&format!("C09:{}:text-depends-on-what-the-formatter-already-holds:Vec", kind), jobj(&[("value", jstr(&format!("{:?}", v))), ("alone", jbytes(&alone)), ("behind", jbytes(prefix)), ("got", jbytes(&grow))]));
+        }
+        if want.len() <= 4096 {
+            let mut fixed: ArrayVec<u8, 4096> = ArrayVec::new();
+            fixed.try_extend_from_slice(prefix).unwrap();
+            let r2 = val_fmt(&v, &mut fixed);
+            if r2.is_err() || fixed.as_slice() != &want[..] {
+                ctx.violation(&format!("C09:{}:text-depends-on-what-the-formatter-already-holds:ArrayVec", kind), jobj(&[("value", jstr(&format!("{:?}", v))), ("alone", jbytes(&alone)), ("behind", jbytes(prefix)), ("got", jbytes(fixed.as_slice()))]));
+            }
+            // and alone in the fixed-capacity formatter
+            let mut fixed: ArrayVec<u8, 4096> = ArrayVec::new();
+            let r3 = val_fmt(&v, &mut fixed);
+            if r3.is_err() || fixed.as_slice() != &alone[..] {
+                ctx.violation(&format!("C09:{}:text-differs-between-formatters", kind), jobj(&[("value", jstr(&format!("{:?}", v))), ("Vec", jbytes(&alone)), ("ArrayVec", jbytes(fixed.as_slice()))]));
+            }
+        }
+    });
+    // ---- lists of other element kinds: the text is the comma-joined texts of the elements formatted alone
+    run_cases(cfg, "lists-of-any-kind", cfg.n(10, 60_000, 2_400_000), rep, |rng, ctx| {
+        fn check<T: ResponseData + Clone>(ctx: &mut Ctx, kind: &str, items: &[T]) {
+            bump(ctx, 1);
+            let mut want: Vec<u8> = Vec::new();
+            for (i, it) in items.iter().enumerate() {
+                if i > 0 {
+                    want.push(b',');
+                }
+                match fmt(it) {
+                    Ok(t) => want.extend_from_slice(&t),
+                    Err(_) => return,
+                }
+            }
+            let v: Vec<T> = items.to_vec();
+            let mut av: ArrayVec<T, 8> = ArrayVec::new();
+            for it in items.iter().take(8) {
+                av.push(it.clone());
+            }
+            for (nm, r) in [("Vec", fmt(&v)), ("ArrayVec", fmt(&av))] {
+                ctx.count(&format!("list-of.{}", kind));
+                match r {
+                    Ok(t) if t == want => {}
+                    other => ctx.violation(&format!("C09:list-of-{}:{}:text-is-not-the-comma-joined-element-texts", kind, nm), jobj(&[("want", jbytes(&want)), ("got", jstr(&format!("{:?}", other.map(|t| show(&t)).map_err(|e| e.get_code()))))])),
+                }
+            }
+        }
+        let n = 1 + rng.usize(8);
+        let p = crate::gen::scen::pools();
+        ctx.nontrivial(rng.next());
+        match rng.usize(6) {
+            0 => check(ctx, "string", &(0..n).map(|_| *rng.pick(&p.ascii)).collect::<Vec<&[u8]>>()),
+            1 => check(ctx, "f64", &(0..n).map(|_| if rng.chance(1, 6) { *rng.pick(&[f64::NAN, f64::INFINITY, -0.0, f64::MAX]) } else { f64::from_bits(rng.next()) }).collect::<Vec<f64>>()),
+            2 => check(ctx, "bool", &(0..n).map(|_| rng.bool()).collect::<Vec<bool>>()),
+            3 => check(ctx, "error-item", &(0..n).map(|_| { let e = Error::custom(rng.next() as i16, *rng.pick(&p.ascii)); if rng.bool() { e.extended(*rng.pick(&p.ascii)) } else { e } }).collect::<Vec<Error>>()),
+            4 => check(ctx, "enum", &(0..n).map(|_| *rng.pick(&crate::props::enums_fixed::FMT_ALL)).collect::<Vec<_>>()),
+            _ => check(ctx, "u64", &(0..n).map(|_| rng.next() >> rng.usize(64)).collect::<Vec<u64>>()),
+        }
+    });
     // ---- enums
     run_cases(cfg, "enums", 1, rep, |_rng, ctx| {
         macro_rules! en {
